@@ -165,7 +165,10 @@ package frame
 //@   ensures  [whole-frame] logLen() == 1 ==> specRawOK(fr) && logN(0) == specFrameLen(fr) &&
 //@              (forall j int :: 0 <= j && j < specFrameLen(fr) ==> logByte(0, j) == specFrameWire(fr, j))
 //@   ensures  [raw-message-kept] old(specFrameMessage(fr)) != nil && old(specIsRaw(specFrameMessage(fr))) ==> specFrameMessage(fr) == old(specFrameMessage(fr))
-//@   modifies w.bw[:], ghost:log, *specMessageField(fr) when old(specFrameMessage(fr)) != nil && !old(specIsRaw(specFrameMessage(fr)))
+//@   ensures  [re-encoded-checksum] logLen() == 1 && !old(specIsRaw(specFrameMessage(fr))) ==>
+//@              SpecChecksumOK(fr, ufDialectExtra(w.DialectRW, old(specFrameMessage(fr).GetID())))
+//@   modifies w.bw[:], ghost:log, *specMessageField(fr) when old(specFrameMessage(fr)) != nil && !old(specIsRaw(specFrameMessage(fr))),
+//@            *specChecksumField(fr) when old(specFrameMessage(fr)) != nil && !old(specIsRaw(specFrameMessage(fr)))
 
 // ---------------------------------------------------------------- frame reader
 
